@@ -51,14 +51,14 @@ func ssnoneSeeds() [][]byte {
 }
 
 func FuzzSSNoneServer(f *testing.F) {
-	for _, s := range ssnoneSeeds() {
-		f.Add(uint16(0), s)
-		f.Add(uint16(0x0001), s)
+	seeds := ssnoneSeeds()
+	for _, i := range thin(len(seeds), 150) {
+		f.Add(uint16(i%3), seeds[i])
 	}
 	f.Fuzz(func(t *testing.T, frag uint16, data []byte) { oracleSSNone(t, frag, data) })
 }
 
-func oracleSSNone(t failer, frag uint16, data []byte) {
+func oracleSSNone(t failer, frag uint16, data []byte) (out oracleResult) {
 	desc := func() string { return fmt.Sprintf("frag=%#x data=%s", frag, hexs(data)) }
 	srv, _ := hostileConn(data, frag, 0)
 	var (
@@ -74,6 +74,7 @@ func oracleSSNone(t failer, frag uint16, data []byte) {
 		t.Fatalf("SIG=C06/ssnone-server-empty-request VERIF-VIOLATION HandleStream returned no error and no request: %s", desc())
 	}
 	res := useAddr(t, recNone, "ssnone-server", req.Addr, "", false)
+	out = oracleResult{true, req.Addr, "", res}
 	guard(t, recNone, "ssnone-server-tunnel", desc, func() {
 		if frag&0x4000 != 0 {
 			_ = req.Abort(conn.DialResult{Code: conn.DialResultCodeEHOSTUNREACH})
@@ -93,6 +94,7 @@ func oracleSSNone(t failer, frag uint16, data []byte) {
 	})
 	cls := addrClass(req.Addr)
 	recNone.Case(cls, res.routed > 0, "accepted", "class:"+cls)
+	return
 }
 
 // ---------------------------------------------------------------- direct / none / socks5 packet unpackers
@@ -162,14 +164,14 @@ func packetSeeds() (sels []uint8, seeds [][]byte) {
 
 func FuzzPacketUnpackers(f *testing.F) {
 	sels, seeds := packetSeeds()
-	for i := range seeds {
+	for _, i := range thin(len(seeds), 200) {
 		f.Add(sels[i], seeds[i])
 	}
 	f.Fuzz(func(t *testing.T, sel uint8, data []byte) { oraclePacket(t, sel, data) })
 }
 
 // sel: bits0-1 protocol (0 socks5, 1 none, 2/3 direct), bit2 client side, bit3 packet from a foreign source, bit4 direct targetOnly
-func oraclePacket(t failer, sel uint8, data []byte) {
+func oraclePacket(t failer, sel uint8, data []byte) (out oracleResult) {
 	desc := func() string { return fmt.Sprintf("sel=%#x data=%s", sel, hexs(data)) }
 	proto := []string{"socks5", "none", "direct", "direct"}[sel&3]
 	recvSize := zerocopy.MaxPacketSizeForAddr(1500, netip.IPv4Unspecified())
@@ -215,6 +217,7 @@ func oraclePacket(t failer, sel uint8, data []byte) {
 			return
 		}
 		res := useAddr(t, recPacket, proto+"-packet-server", ta, "", true)
+		out = oracleResult{true, ta, "", res}
 		relayInPlace(t, recPacket, desc, buf, ta, ps, pl)
 		if packer != nil {
 			guard(t, recPacket, proto+"-server-reply", desc, func() {
@@ -270,6 +273,7 @@ func oraclePacket(t failer, sel uint8, data []byte) {
 		})
 	}
 	recPacket.Case(proto+"/client", accepted, map[bool]string{true: "accepted", false: "rejected"}[accepted], "side:client", "proto:"+proto)
+	return
 }
 
 // ---------------------------------------------------------------- DNS responses
@@ -351,6 +355,12 @@ func dnsSeeds() (sels []uint8, names []string, firsts, seconds [][]byte) {
 	add(0, "example.com", framed(cat(ok4[:12], bytes.Repeat([]byte{0xc0, 0x0c}, 40))), nil) // compression pointer loop
 	add(0, "example.com", framed(cat(ok4[:6], []byte{0xff, 0xff, 0xff, 0xff, 0xff, 0xff}, ok4[12:])), nil)
 	add(0, "example.com", nil, nil)
+	for n := 1; n <= 13; n++ { // every header truncation, correctly framed
+		add(0, "example.com", framed(ok4[:n]), framed(ok6[:n], ok4))
+	}
+	for n := 13; n < len(ok4); n += 3 { // truncation inside question / answer
+		add(0, "example.com", framed(ok4[:n], ok6), nil)
+	}
 	// framed mode: the harness adds the length prefix and forces ids 4 and 6 on the two messages of a conversation
 	add(1, "example.com", cat(binary.BigEndian.AppendUint16(nil, uint16(len(ok4))), ok4, binary.BigEndian.AppendUint16(nil, uint16(len(ok6))), ok6), nil)
 	add(1, "example.com", cat(binary.BigEndian.AppendUint16(nil, uint16(len(cname))), cname, binary.BigEndian.AppendUint16(nil, uint16(len(nx6))), nx6), nil)
@@ -366,8 +376,7 @@ func dnsSeeds() (sels []uint8, names []string, firsts, seconds [][]byte) {
 func FuzzDNSResponse(f *testing.F) {
 	sels, names, firsts, seconds := dnsSeeds()
 	for i := range sels {
-		f.Add(sels[i], uint16(0), names[i], firsts[i], seconds[i])
-		f.Add(sels[i], uint16(0x0021), names[i], firsts[i], seconds[i])
+		f.Add(sels[i], uint16(i%3), names[i], firsts[i], seconds[i])
 	}
 	f.Fuzz(func(t *testing.T, sel uint8, frag uint16, name string, first, second []byte) {
 		oracleDNS(t, sel, frag, name, first, second)
